@@ -56,7 +56,7 @@ def h09a(c, max_frags=1):
     with cm.config_set(simulated=True):
         fl, (client,), (strategy,) = cm.new_sim()
         mw = fl._market_middleware[0]
-        b_kind = c.choose("b_kind", ["LIMIT", "MOC-LAY", "MOC-LAY-matched", "MOC-BACK"])
+        b_kind = c.choose("b_kind", ["LIMIT", "MOC-LAY", "MOC-LAY-matched", "MOC-BACK", "MOC-BACK-matched"])
         c.tag("b_kind", b_kind)
         mtype = c.choose("market_type", ["WIN", "PLACE", "OTHER_PLACE", "EACH_WAY"] if b_kind.startswith("MOC-LAY") else ["WIN", "EACH_WAY"])
         md = cm.market_definition(market_type=mtype)
@@ -97,8 +97,15 @@ def h09a(c, max_frags=1):
             before = [list(f) for f in B.simulated.matched]
         else:
             liab = c.pick("b_liability", LIABS)
-            B = cm.mk_moc(strategy, "BACK" if b_kind == "MOC-BACK" else "LAY", liab, selection_id=2)
+            B = cm.mk_moc(strategy, "BACK" if b_kind.startswith("MOC-BACK") else "LAY", liab, selection_id=2)
             cm.place_resting(fl, market, strategy, B, 101)
+            if b_kind == "MOC-BACK-matched":
+                # a starting-price back bet already matched at the SP (removal declared in-play): its fill is reduced like any other
+                sp = c.pick("b_sp", [1.5, 3.0, 11.0])
+                B.simulated.matched = [[cm.T0_MS, sp, liab]]
+                B.simulated.size_matched, B.simulated.average_price_matched = liab, sp
+                B.simulated._bsp_reconciled = True
+                before = [list(f) for f in B.simulated.matched]
             if b_kind == "MOC-LAY-matched":
                 sp = c.pick("b_sp", [1.5, 3.0, 11.0])
                 B.simulated.matched = [[cm.T0_MS, sp, 1.0]]
@@ -137,6 +144,10 @@ def h09a(c, max_frags=1):
                 _frag_obligations(c, tag, before, B.simulated.matched, f, applies)
                 if before:
                     c.cover("fragments")
+            elif b_kind == "MOC-BACK-matched":
+                c.ob("%s.moc-back-liability-unchanged" % tag, B.order_type.liability == liab)
+                _frag_obligations(c, tag + ".moc-back", before, B.simulated.matched, f, applies)
+                c.cover("moc-back-matched")
             elif b_kind == "MOC-BACK":
                 c.ob("%s.moc-back-liability-unchanged" % tag, B.order_type.liability == liab)
             else:
@@ -173,7 +184,30 @@ def h09b(c):
     """the same (selection, handicap, factor) removed in a second market of the same framework instance is applied there
     too; two removals in one market compose"""
     with cm.config_set(simulated=True):
-        scenario = c.choose("scenario", ["second-market", "second-market-then-first-closes", "two-removals-successive", "two-removals-same-update"])
+        scenario = c.choose("scenario", ["second-market", "second-market-then-first-closes", "two-removals-successive", "two-removals-same-update",
+                                          "removal-before-first-order"])
+        if scenario == "removal-before-first-order":
+            # the runner is already removed in books processed while the market has no orders; an order on another runner is
+            # matched afterwards: its fill must not be reduced by that earlier removal (removals apply to bets matched before them)
+            fl, (client,), (strategy,) = cm.new_sim()
+            mw = fl._market_middleware[0]
+            md = cm.market_definition(market_type="WIN")
+            f, fk = _af(c, "adjustment_factor", kinds=("sym",))
+            m = cm.add_market(fl, _removal_book(cm.MID, 7, cm.T0_MS, {1: f}, md))
+            with c.guard("removal-with-empty-blotter"):
+                mw(m)
+                m(_removal_book(cm.MID, 7, cm.T0_MS + 500, {1: f}, md)); mw(m)
+            B, _ = ss.resting_limit(c, "b", fl, m, strategy, 101, selection_id=2, max_frags=1, min_frags=1, allow_cancelled=False,
+                                    status=OrderStatus.EXECUTABLE, side="BACK", persistence="LAPSE", price=3.0)
+            before = [list(x) for x in B.simulated.matched]
+            with c.guard("next-update"):
+                m(_removal_book(cm.MID, 7, cm.T0_MS + 1000, {1: f}, md)); mw(m)
+                fl._process_simulated_orders(m)
+            for i, (b, a) in enumerate(zip(before, B.simulated.matched)):
+                c.ob("later-fill.f%d.not-reduced-by-earlier-removal" % i, c.And(a[1] == b[1], a[2] == b[2]))
+            c.cover("removal-before-first-order")
+            c.cover("second-market"); c.cover("compose"); c.cover("other-market-closed")
+            return
         c.tag("scenario", scenario)
         fl, (client,), (strategy,) = cm.new_sim()
         mw = fl._market_middleware[0]
@@ -245,9 +279,9 @@ def h09b(c):
 
 HARNESSES = [
     Harness("H09a", h09a, quick=dict(max_frags=1), thorough=dict(max_frags=2), pattern="P2 inductive step + second call",
-            requires=["voided", "fragments", "moc-lay"], wall_s=(300, 3000), max_paths=(200000, 3000000),
+            requires=["voided", "fragments", "moc-lay", "moc-back-matched"], wall_s=(300, 3000), max_paths=(200000, 3000000),
             outside=["more than 2 fragments per order", "SP lay bets with a maximum odds limit (LIMIT_ON_CLOSE) on other runners: flumine documents this as TODO"]),
-    Harness("H09b", h09b, pattern="P3 short history", requires=["second-market", "compose", "other-market-closed"], wall_s=(300, 3000), max_paths=(200000, 3000000),
+    Harness("H09b", h09b, pattern="P3 short history", requires=["second-market", "compose", "other-market-closed", "removal-before-first-order"], wall_s=(300, 3000), max_paths=(200000, 3000000),
             outside=["more than 2 markets / 2 removals"]),
 ]
 META = {"assumptions": ["adjustment factor ranges over None, 0 and every 2dp value in (0, 99]; fragment prices over a finite set (products stay linear)"]}
